@@ -164,6 +164,7 @@ class history {
     if (uni.keys.size() > 600) nops *= 3;
     scan_rate = a.dbl("scanrate", g_prop == "C02" ? 0.35 : 0.06);
     if (a.num("full256", 1) != 0 && r.chance(0.07)) make_full256();
+    else if (std::is_same_v<K, unodb::key_view> && a.num("longtail", 1) != 0 && r.chance(0.06)) make_longtail();
     a_prefix_bounds = a.num("prefixbounds", 1) != 0;
     tag = std::string(I::name) + "." + keyconv<K>::name;
     if constexpr (I::olc) with_companion = a.num("companion", 1) != 0 && r.chance(0.5);
@@ -205,6 +206,40 @@ class history {
     uni.keys.erase(std::unique(uni.keys.begin(), uni.keys.end()), uni.keys.end());
     nops = std::max<std::size_t>(nops, 1000);
     full256 = true;
+  }
+
+  // "longtail": byte-string keys with distinct short heads of one length and long unshared tails (0..700 bytes, many beyond
+  // the 256-byte inline capacity of the iterator's key buffer); in 1 of 8 cases the universe is just the empty key.
+  void make_longtail() {
+    uni = vu::universe{};
+    uni.u64 = false;
+    uni.family = "longtail";
+    uni.sh = vu::shape::FIXED;
+    if (r.chance(0.125)) {
+      uni.len = 0;
+      uni.keys.push_back(bytes());
+      uni.family = "emptykey";
+      return;
+    }
+    const std::size_t h = 1 + r.below(4);
+    uni.len = h;
+    uni.alpha.assign(h, {});
+    for (std::size_t i = 0; i < h; ++i) uni.alpha[i] = vu::make_alphabet(r, static_cast<unsigned>(2 + r.below(4)));
+    std::set<bytes, vm::byte_less> heads;
+    const auto n = 8 + r.below(40);
+    for (u64 t = 0; t < n * 4 && heads.size() < n; ++t) {
+      bytes k;
+      for (std::size_t i = 0; i < h; ++i) k += static_cast<char>(r.pick(uni.alpha[i]));
+      heads.insert(k);
+    }
+    for (const auto& hd : heads) {
+      bytes k = hd;
+      const auto m = r.below(100);
+      const std::size_t tail = m < 20 ? r.below(8) : (m < 60 ? 200 + r.below(120) : r.below(700));
+      for (std::size_t i = 0; i < tail; ++i) k += static_cast<char>(r.below(256));
+      uni.keys.push_back(k);
+    }
+    std::sort(uni.keys.begin(), uni.keys.end(), vm::byte_less{});
   }
 
   // the first absent key of the universe at or after a random position (full256 fill steps)
